@@ -1,7 +1,7 @@
 """Observers of real fibertree objects.  Only documented public attributes are
 read (Fiber.coords / Fiber.payloads, Rank.getFibers(), Tensor.ranks)."""
 
-from fibertree import Fiber, Payload, Tensor
+from fibertree import CoordPayload, Fiber, Payload, Tensor
 from fibertree.core.rank import Rank
 from fibertree.core.rank_attrs import RankAttrs
 
@@ -88,7 +88,7 @@ def wellformed(root, depth=None, where="tree"):
             elif isinstance(p, Payload):
                 kinds.add("P")
                 v = p.value
-                if isinstance(v, (Payload, Fiber)):
+                if isinstance(v, (Payload, Fiber, CoordPayload)):
                     raise Violation("malformed", f"{where}: level {lvl}: leaf box holds a {type(v).__name__}")
                 leaf_depths.add(lvl)
             else:
